@@ -1161,7 +1161,57 @@ def r_established_checked(ctx):
                               'the connection is marked CONNECTED on a path that did not read the pending socket error: with a poller that reports a refused connect only as '
                               'readable/writable (select) the peer is reported connected while nothing is connected', instance=inst)
     ctx.require(n_sites >= 1, 'no CONNECTING -> CONNECTED transition found')
-    ctx.expect_min(1)
+    # ... and a pending socket error closes the connection: the error arm of every SO_ERROR test reaches disconnect() before it leaves
+    for m in P.methods_of(C):
+        cfg = U.explorer(ctx, m).cfg
+        for cn in cfg.nodes:
+            if cn.kind != 'cond' or not any(isinstance(x, ast.Attribute) and x.attr == 'SO_ERROR' for x in ast.walk(cn.ast)):
+                continue
+            tt = [d for d, l in cn.succ if l == ('cond', True)]
+            disc = [n.id for n in cfg.nodes if n.kind == 'stmt' and n.ast is not None and any(
+                isinstance(c, ast.Call) and isinstance(c.func, ast.Attribute) and c.func.attr == 'disconnect' and isinstance(c.func.value, ast.Name) and c.func.value.id == m.self_name
+                for c in ast.walk(n.ast))]
+            inst = '%s: a pending socket error leads to disconnect()' % m.qualname
+            ctx.tick()
+            if tt and (tt[0] in disc or cfg.exit.id not in cfg.reachable_from(tt[0], avoid=disc, follow_exc=False)):
+                ctx.ok(inst, m.loc(cn.ast), 'the function cannot be left from the error arm without disconnect()')
+            else:
+                ctx.violation('%s:socket-error-ignored' % m.qualname, m.loc(cn.ast),
+                              'the arm taken when getsockopt(SO_ERROR) reports an error can leave the function without disconnect(): the dead connection stays registered as the '
+                              'live connection of its peer', instance=inst)
+    ctx.expect_min(2)
+
+
+@rule('R-callback-wiring', 'every event the transport can be asked to report (setOn...Callback) is forwarded: the stored callback '
+                           'is called by a method of the transport')
+def r_callback_wiring(ctx):
+    P = ctx.P
+    T0 = P.cls('Transport')
+    n = 0
+    for st in P.methods_of(T0):
+        if not (st.name.startswith('setOn') and st.name.endswith('Callback')) or len(st.params) != 2:
+            continue
+        stored = [P.self_attr(x.targets[0], st.self_name) for x in ast.walk(st.node) if isinstance(x, ast.Assign) and isinstance(x.value, ast.Name) and x.value.id == st.params[1]]
+        stored = [a for a in stored if a]
+        if not stored:
+            continue        # e.g. a table of utility callbacks keyed by name
+        attr = stored[0]
+        n += 1
+        inst = '%s: the stored callback is invoked' % st.name
+        ctx.tick()
+        callers = []
+        for cls in [T0] + P.subclasses(T0):
+            for m in P.methods_of(cls):
+                for c in P.calls_in(m):
+                    if P.self_attr(c.func, m.self_name) == attr:
+                        callers.append((m, c))
+        if callers:
+            ctx.ok(inst, callers[0][0].loc(callers[0][1]), '%s calls self.%s(..)' % (callers[0][0].qualname, attr))
+        else:
+            ctx.violation('Transport.%s:callback-never-invoked' % st.name, st.loc(), 'the callback stored by %s (self.%s) is never called: the event is silently lost '
+                          '(the node is never told, e.g., that a read-only peer left)' % (st.name, attr), instance=inst)
+    ctx.require(n >= 4, 'transport callback setters not found')
+    ctx.expect_min(4)
 
 
 @rule('R-enumeration-siblings', 'the object\'s own replicated methods and those of every consumer are selected for id assignment by '
